@@ -350,7 +350,7 @@ func c04() *core.Check {
 		Plan: func(tier string, seed uint64) []core.Unit {
 			total := g04SweepSize()
 			if tier == "thorough" {
-				total += 8000000
+				total += 60000000
 			} else {
 				total += 400000
 			}
